@@ -257,7 +257,10 @@ bool qvector_addfirst(qvector_t *vector, const void *data) {
  * @endcode
  */
 bool qvector_addlast(qvector_t *vector, const void *data) {
-    return vector->addat(vector, vector->num, data);
+    vector->lock(vector);
+    bool ret = vector->addat(vector, vector->num, data);
+    vector->unlock(vector);
+    return ret;
 }
 
 /**
@@ -300,16 +303,17 @@ bool qvector_addat(qvector_t *vector, int index, const void *data) {
         return false;
     }
 
+    vector->lock(vector);
+
     //check index
     if (index < 0) {
         index += vector->num;
     }
     if (index > vector->num) {
+        vector->unlock(vector);
         errno = ERANGE;
         return false;
     }
-
-    vector->lock(vector);
 
     //check whether the vector is full
     if (vector->num >= vector->max) {
